@@ -36,14 +36,20 @@ pub fn lines_for_keys(keys: &[&str], db: &str, with_rp: bool) -> Vec<String> {
     dedup_by_parse(all)
 }
 
+pub fn parse_key(l: &str) -> String {
+    match std::panic::catch_unwind(|| Request::parse(l.trim_matches('\n'))) {
+        Ok(Ok(r)) => format!("{:?}", r),
+        Ok(Err(e)) => format!("ERR:{}", e),
+        // the parser itself panics on this line: keep one representative per panic message
+        Err(e) => format!("PANIC:{}", crate::world::panic_msg(&e)),
+    }
+}
+
 pub fn dedup_by_parse(lines: Vec<String>) -> Vec<String> {
     let mut seen: BTreeMap<String, String> = BTreeMap::new();
     let mut out = vec![];
     for l in lines {
-        let key = match Request::parse(l.trim_matches('\n')) {
-            Ok(r) => format!("{:?}", r),
-            Err(e) => format!("ERR:{}", e),
-        };
+        let key = parse_key(&l);
         if !seen.contains_key(&key) {
             seen.insert(key, l.clone());
             out.push(l);
